@@ -29,8 +29,10 @@ func Typecheck(processes []*Process, assumedFreeNames []Name, globalEnv *GlobalE
 
 func typecheckFunctionsAndProcesses(processes []*Process, assumedFreeNames []Name, globalEnv *GlobalEnvironment, errorChan chan error, doneChan chan bool) {
 	defer func() {
-		// No error found, notify parent
-		doneChan <- true
+		// An internal failure must reach the parent as an error, never as success
+		if r := recover(); r != nil {
+			errorChan <- fmt.Errorf("internal error while typechecking: %v", r)
+		}
 	}()
 
 	assignTypesToProcessProviders(processes)
@@ -74,6 +76,9 @@ func typecheckFunctionsAndProcesses(processes []*Process, assumedFreeNames []Nam
 	}
 
 	globalEnv.log(LOGRULEDETAILS, "Process declarations typecheck ok")
+
+	// No error found, notify parent
+	doneChan <- true
 }
 
 // Sets a common type to all provider names
